@@ -228,6 +228,7 @@ fn mode_hist(rng: &mut Rng, n_cases: u64, max_len: u64, probes: bool) {
                         if o3.allowed() != Some(true) {
                             viol.push(Viol { prop: "C03", step: i, what: format!("denied with retry_after={retry}ns but repeating it then is not admitted: {:?}", o3) });
                         }
+                        if matches!(o3, Out::Panic(_) | Out::ErrInternal(_)) { viol.push(Viol { prop: "C08", step: i, what: format!("valid request repeated exactly retry_after={retry}ns after step {i} gave {:?}", o3) }); }
                         if *retry > 0 {
                             let mut l4 = replay(&cfg, &reqs[..i]);
                             let o4 = l4.call(&Req { now: r0.now + *retry as i128 - 1, ..r0.clone() });
@@ -247,8 +248,14 @@ fn mode_hist(rng: &mut Rng, n_cases: u64, max_len: u64, probes: bool) {
                         if o5 != o6 {
                             viol.push(Viol { prop: "C03", step: i, what: format!("after reset_after={reset}ns (t={t2}) request q={q2} answers {:?}, a never-seen key answers {:?}", o5, o6) });
                         }
+                        if matches!(o5, Out::Panic(_) | Out::ErrInternal(_)) { viol.push(Viol { prop: "C08", step: i, what: format!("valid request (q={q2}) stamped t={t2}, at or just after the expiry instant of step {i}'s state, gave {:?}", o5) }); }
                     }
                     let _ = e;
+                    // C08 on the probes as well (they land exactly on refill and expiry instants): a valid request never panics
+                    // and never gets the internal error
+                    for (nm, o) in [("remaining", &o1), ("remaining+1", &o2)] {
+                        if matches!(o, Out::Panic(_) | Out::ErrInternal(_)) { viol.push(Viol { prop: "C08", step: i, what: format!("probe `{nm}` right after step {i} gave {:?}", o) }); }
+                    }
                 }
             }
         }
